@@ -111,6 +111,13 @@ func fieldN() *fieldOps {
 		sub:    func(a, b interface{}) interface{} { return c16recvN().Sub(E(a), E(b)) },
 		mul:    func(a, b interface{}) interface{} { return c16recvN().Mul(E(a), E(b)) },
 		square: func(a interface{}) interface{} { return c16recvN().Square(E(a)) },
+		// the scalar type has no Opp method; the statement names negation for both fields, so the generated
+		// routine is judged directly
+		opp: func(a interface{}) interface{} {
+			r := c16recvN()
+			sm2ScalarOpp(&r.x, &E(a).x)
+			return r
+		},
 		invert: func(a interface{}) interface{} { return c16recvN().Invert(E(a)) },
 		sel:    func(a, b interface{}, c int) interface{} { return c16recvN().Select(E(a), E(b), c) },
 		bytes:  func(a interface{}) []byte { return E(a).Bytes() },
